@@ -502,12 +502,14 @@ class H2Client(e2e.H2Conn):
 
         def done(fs):
             ended = set()
+            last = None
             for t, fl, sid, pl in fs:
                 if (t in (0, 1) and fl & 1) or t == 3:
                     ended.add(sid)
-                if t == 7:
-                    return True
-            return all(s in ended for s in sids)
+                if t == 7 and len(pl) >= 4:          # GOAWAY: streams above last-stream-id are not processed
+                    lid = int.from_bytes(pl[:4], "big") & 0x7fffffff
+                    last = lid if last is None else min(last, lid)
+            return all(s in ended or (last is not None and s > last) for s in sids)
         self.pump(timeout, until=done)
         self._account()
         try:
@@ -661,6 +663,18 @@ def diff_classes(a, b, cross=False):
 
 def h1_obs(resp, srv):
     return make_obs(resp["status"], resp["headers"], resp["body"], srv)
+
+
+def h2_probe_obs(c, st, sid, srv, mode):
+    """observation of the probe stream; a probe that was refused / cut short because the connection
+    had sent GOAWAY (e.g. after invalid credentials on another stream) is inconclusive"""
+    if "error" in st or sid not in st:
+        raise Unanswered("%s: probe unanswered%s" % (mode, " (goaway)" if c.goaway() else ""))
+    d = st[sid]
+    has_status = any(k == b":status" for k, _ in d["headers"])
+    if c.goaway() and (not has_status or not d["end"]):
+        raise Unanswered("%s: probe refused / cut short after GOAWAY" % mode)
+    return h2_obs(d, srv)
 
 
 def h2_obs(d, srv):
@@ -861,9 +875,7 @@ def h2_case(srv, case, log):
                 c.data(psid, h.body[half:], end=True)
         st = c.wait([sid] + [p[0] for p in pend if p[1].abort is None], timeout=3.0)
         c.close()
-        if "error" in st or sid not in st:
-            raise Unanswered("concurrent: probe unanswered%s" % (" (goaway)" if c.goaway() else ""))
-        return h2_obs(st[sid], srv)
+        return h2_probe_obs(c, st, sid, srv, "concurrent")
     elif mode == "burst":
         c = H2Client(srv.port)
         out, sids = b"", []
@@ -885,9 +897,7 @@ def h2_case(srv, case, log):
         c.send(out)
         st = c.wait(sids)
         c.close()
-        if "error" in st or sids[-1] not in st:
-            raise Unanswered("burst: probe unanswered%s" % (" (goaway)" if c.goaway() else ""))
-        return h2_obs(st[sids[-1]], srv)
+        return h2_probe_obs(c, st, sids[-1], srv, "burst")
     elif mode == "otherconn":
         c = H2Client(srv.port)
         b = h2_history(srv, hist, log)
